@@ -959,6 +959,10 @@ class Paths:
                     return [([], [], mk_bin("Lt", x_, hi_))]       # 0 <= x holds for every unsigned x
                 if kind_ == "Range":
                     return [([], [], mk_bin("BitAnd", mk_bin("Le", lo_, x_), mk_bin("Lt", x_, hi_)))]
+            if r_[0] == "agg" and isinstance(r_[1], str) and len(r_[2]) == 1 and r_[1].split("::")[-1] in ("RangeFrom", "RangeTo", "RangeToInclusive"):
+                b_ = self._val(st, r_[2][0])
+                kind_ = r_[1].split("::")[-1]
+                return [([], [], mk_bin("Le", b_, x_) if kind_ == "RangeFrom" else mk_bin("Lt", x_, b_) if kind_ == "RangeTo" else mk_bin("Le", x_, b_))]
             if r_[0] == "call" and r_[1].endswith("RangeInclusive::<Idx>::new") and len(r_[3]) == 2:
                 lo_, hi_ = self._val(st, r_[3][0]), self._val(st, r_[3][1])
                 return [([], [], mk_bin("BitAnd", mk_bin("Le", lo_, x_), mk_bin("Le", x_, hi_)))]
@@ -991,6 +995,19 @@ class Paths:
                             return None
                         out += [(conj + f2, e2, some(r2)) for f2, e2, r2 in res]
             return out
+        if name == "map" and "<impl [T; N]>::map" in path and len(args) == 2:
+            # `[a, b, c].map(f)` with a pure single-path f: the array of the results
+            arr_ = strip_refs(raw(0))
+            if arr_[0] == "agg" and arr_[1] == "array" and len(arr_[2]) <= 8 and (is_closure(strip_refs(raw(1))) or is_fnitem(strip_refs(raw(1)))):
+                out_ = []
+                for el_ in arr_[2]:
+                    cs_ = self._apply_callable(strip_refs(raw(1)), [el_], depth)
+                    if not cs_ or len(cs_) != 1 or cs_[0][0] or cs_[0][1]:
+                        out_ = None
+                        break
+                    out_.append(cs_[0][2])
+                if out_ is not None:
+                    return [([], [], ("agg", "array", tuple(out_)))]
         if name in ("sum", "product") and len(args) == 1 and "Iterator" in path:
             # a reduction of a sequence of statically known elements (literal / constant arrays, zipped, mapped by a pure
             # single-path closure): the chain of additions it stands for
